@@ -243,11 +243,15 @@ class Engine(DynMixin, ExprMixin, ModelMixin, BuiltinMixin, MAMixin):
             for st2, out in self.exec_block(fi.node.body, st):
                 st2.env = saved
                 if out[0] == "normal":
-                    yield st2, ("return", None)
-                elif out[0] in ("return", "raise"):
-                    yield st2, out
-                else:
+                    out = ("return", None)
+                elif out[0] not in ("return", "raise"):
                     raise Unsupported("break/continue outside loop")
+                # the consumer continues in the caller: the callee's frame is not current while it does
+                self.frames.pop()
+                try:
+                    yield st2, out
+                finally:
+                    self.frames.append(fi)
         finally:
             self.frames.pop()
 
